@@ -536,6 +536,20 @@ def lc_key(x):
     return sorted((repr(t), sorted((repr(m), str(q)) for m, q in c.items())) for t, c in x.items())
 
 
+def zero_wedge_operand(t, n):
+    """Some wedge in the program has an operand that is 0 by the laws (e.g. d(d(u))): the
+    implementation then builds ExteriorProduct(0, w) with a raw Python int as argument."""
+    if t["t"] == "wedge" and (not nf_tree(t["a"], n) or not nf_tree(t["b"], n)):
+        return True
+    return any(zero_wedge_operand(c, n) for c in tree_children(t))
+
+
+def raised_sig(law, kind, trees, n):
+    if any(zero_wedge_operand(t, n) for t in trees):
+        return {"law": law, "class": "raised", "cause": "wedge-keeps-zero-operand", "raised": kind}
+    return {"law": law, "class": "raised", "cause": "raised:" + kind}
+
+
 def degree_check_vacuous(t, n):
     """A degree statement about a program that is zero by the laws says nothing (0 has every degree):
     the program itself, or a summand of the sum under test, has an empty normal form."""
@@ -598,17 +612,18 @@ def cause_of(chk, res, sem_equal):
         return "bare-constant-operand"
     if "infer" in chk:
         v = res["value"]
-        top = [v] + (v["args"] if v["k"] == "add" else [])
-        if any(x["k"] == "mul" for x in top) and res["infer"] in ("none", "ValueError"):
-            return "infer-no-Mul-arm"
         if v["k"] == "num":
             return "value-is-zero"
+        # infere_type returns None on every product; one level up that is `.index` of None
+        # (AttributeError), in a sum a refusal (ValueError) or None again
+        if value_has(v, lambda x: x["k"] == "mul") and not isinstance(res["infer"], dict):
+            return "infer-no-Mul-arm"
         return "wrong-degree"
     vals = [res["lhs"], res["rhs"]]
-    if res.get("reeval_equal"):
-        return "coefficient-arm-does-not-re-evaluate"
     if not sem_equal:
         return "wrong-value"
+    if res.get("reeval_equal"):
+        return "coefficient-arm-does-not-re-evaluate"
     if any(value_has(v, lambda x: x["k"] in ("op", "wedge") and value_has(x, lambda y: y["k"] == "pow")) for v in vals):
         return "power-of-constant-not-a-coefficient"
     if any(value_has(v, lambda x: x["k"] == "wedge" and (x["a"]["k"] == "num" or x["b"]["k"] == "num")) for v in vals):
@@ -620,29 +635,42 @@ def cause_of(chk, res, sem_equal):
 def main(run, replay=None):
     rng = run.rng
     quick = run.tier == "quick"
-    ncases = 420 if quick else 4500
+    ncases = 240 if quick else 3000
     proof_ok = run.coq_props()
 
     corpus_path = run.work.parents[1] / "corpus" / "C19.json"
     corpus = json.load(open(corpus_path)) if corpus_path.exists() else []
     if replay:
-        rp = json.load(open(replay))
-        cases = [rp["case"]]
+        cases = [case_from_replay(json.load(open(replay)))]
     else:
         cases = list(corpus) + [gen_case(rng, run.tier, i) for i in range(ncases)]
 
+    import time
+    t0 = time.time()
     results = run_cases(run, cases)
+    t1 = time.time()
     model = model_agreement(run, cases, results)
+    t2 = time.time()
     findings, stats = judge(run, cases, results, model)
+    t3 = time.time()
+    stats["phase_seconds"] = {"build_and_proofs": round(t0 - run.t0, 1), "implementation": round(t1 - t0, 1),
+                              "model_in_coq": round(t2 - t1, 1), "oracle": round(t3 - t2, 1)}
 
     # ---- report: oracle failures first (shrunk), then unexplained disagreements, then proofs
     reported = set()
     budget = 4 if quick else 8          # shrinking costs one interpreter start per round
+    shown = {"oracle": 0, "corr": 0}    # a single defect shows up under many laws: print the clearest few
     for f in findings:
         key = json.dumps(f["sig"], sort_keys=True)
         if key in reported:
             continue
         reported.add(key)
+        if run.match_known(f["sig"]) is None and not replay:
+            kind = "corr" if f["sig"].get("kind") == "correspondence" else "oracle"
+            shown[kind] += 1
+            if shown[kind] > (8 if kind == "oracle" else 2):
+                run.notes.append("further failing input not printed: %s" % json.dumps(f["sig"], sort_keys=True))
+                continue
         if run.match_known(f["sig"]) is None and not replay and f.get("shrinkable") and budget > 0:
             budget -= 1
             f = shrink(run, f)
@@ -665,6 +693,21 @@ def main(run, replay=None):
         "Dimensions 1..6 and integer degrees (dtype_registry stops at 6); symbolic dimensions / degrees are not generated.",
     ]
     return run.finish(cov, assumptions)
+
+
+def case_from_replay(rp):
+    """The recorded failing input as a one-element case."""
+    c = rp["case"]
+    if "progs" in c and "checks" in c:
+        return c
+    if "case" in c and isinstance(c["case"], dict) and "progs" in c["case"]:
+        return c["case"]
+    case = {"kind": "replay", "n": c["n"], "k": c.get("k", 0), "progs": [], "checks": []}
+    if "check" in c:
+        case["checks"] = [c["check"]]
+    if "prog" in c:
+        case["progs"] = [c["prog"]]
+    return case
 
 
 def run_cases(run, cases):
@@ -801,8 +844,8 @@ def judge(run, cases, results, model):
         for j, (t, r) in enumerate(zip(case["progs"], res["progs"])):
             if "raised" in r:
                 st["raised"][r["raised"]] = st["raised"].get(r["raised"], 0) + 1
-                findings.append({"sig": {"law": "construction", "cause": "raised:" + r["raised"]},
-                                 "what": "building the program raised " + r["raised"],
+                findings.append({"sig": raised_sig("construction", r["raised"], [t], n),
+                                 "what": "building the program raised " + r["raised"] + ": " + skeleton(t),
                                  "case": {"n": n, "prog": t}, "observed": r, "required": "a value",
                                  "python": python_replay({"infer": t}), "where": "oracle:construction",
                                  "found_input": True})
@@ -832,7 +875,7 @@ def judge(run, cases, results, model):
             if "raised" in r:
                 bl["fail"] += 1
                 st["raised"][r["raised"]] = st["raised"].get(r["raised"], 0) + 1
-                findings.append({"sig": {"law": law, "cause": "raised:" + r["raised"]},
+                findings.append({"sig": raised_sig(law, r["raised"], [c[x] for x in ("lhs", "rhs", "infer") if c.get(x) is not None], n),
                                  "what": "evaluating the law raised " + r["raised"], "case": {"n": n, "check": c},
                                  "observed": r, "required": "a value", "python": python_replay(c),
                                  "where": "oracle:" + law, "found_input": True})
@@ -884,7 +927,7 @@ def judge(run, cases, results, model):
                                       "skeleton": skeleton(c.get("lhs") or c.get("infer"))},
                              "observed": obs, "required": req, "python": python_replay(c),
                              "where": "oracle:" + law, "found_input": True,
-                             "shrinkable": {"mode": "law", "law": law, "full": case}})
+                             "shrinkable": ({"mode": "law", "law": law, "full": case} if case.get("params") else None)})
     # ---- model / implementation disagreements
     for (ci, lab), (ok, term) in sorted(model.items()):
         if ok:
@@ -902,7 +945,14 @@ def judge(run, cases, results, model):
                          "required": "Coq: " + term[:3000], "where": "correspondence ExteriorM vs sympde.exterior (%s)" % lab,
                          "found_input": False})
     # unexplained first in no particular order; oracle failures with a differing model before the others
-    findings.sort(key=lambda f: (0 if f["sig"].get("model") == "differs" else 1))
+    def prio(f):
+        sg = f["sig"]
+        t = f["case"].get("prog") or (f["case"].get("check") or {}).get("lhs") or (f["case"].get("check") or {}).get("infer")
+        return (0 if sg.get("model") == "differs" else 1,
+                0 if sg.get("class") == "unsound" else 1,
+                0 if sg.get("cause") in ("wrong-value", "wrong-degree") else 1,
+                tree_size(t) if isinstance(t, dict) and "t" in t else 0)
+    findings.sort(key=prio)
     return findings, st
 
 
@@ -1071,7 +1121,7 @@ def coverage(cases, results, st):
         "law_failures_by_cause": st["law_fail"], "laws": st["by_law"],
         "vacuous_degree_checks_skipped": st.get("vacuous_degree_checks", 0),
         "soundness_comparisons": st["sound_checks"], "soundness_failures": st["sound_fail"],
-        "raised": st["raised"], "unsupported_nodes": st["unsupported"],
+        "raised": st["raised"], "unsupported_nodes": st["unsupported"], "phase_seconds": st.get("phase_seconds"),
         "infere_type_results": st["infer_results"], "root_call_arms": st["root_arms"],
         "case_kinds": kinds, "dimension_histogram": dims, "degree_over_dimension_histogram": degs,
         "program_depth_histogram": depths, "program_size_histogram": sizes, "operator_counts": ops,
